@@ -221,6 +221,12 @@ func (m *wrappingMetric) Write(out *dto.Metric) error {
 }
 
 func wrapDesc(desc *Desc, prefix string, labels Labels) *Desc {
+	if desc.err != nil {
+		// An invalid Desc (e.g. created by NewInvalidDesc) is not
+		// necessarily fully populated, so it must not be run through
+		// NewDesc again. Its error has precedence anyway.
+		return desc
+	}
 	constLabels := Labels{}
 	for _, lp := range desc.constLabelPairs {
 		constLabels[*lp.Name] = *lp.Value
